@@ -18,7 +18,10 @@ package nbs
 
 import (
 	"encoding/binary"
+	"io"
+	"os"
 
+	dherrors "github.com/dolthub/dolt/go/libraries/utils/errors"
 	"github.com/dolthub/dolt/go/store/hash"
 )
 
@@ -108,3 +111,43 @@ func verif_sfxmatch(ti onHeapTableIndex, o uint32, h *hash.Hash) bool {
 func verif_present(ti onHeapTableIndex, h *hash.Hash, k uint32) bool {
 	return verif_pfx(ti, k) == h.Prefix() && verif_sfxmatch(ti, verif_ord(ti, k), h)
 }
+
+// ---- big-endian views (journal and table formats), written from the format documentation
+
+func verif_be32(b []byte) uint32 {
+	return uint32(b[0])<<24 | uint32(b[1])<<16 | uint32(b[2])<<8 | uint32(b[3])
+}
+
+func verif_be64(b []byte) uint64 {
+	return uint64(b[0])<<56 | uint64(b[1])<<48 | uint64(b[2])<<40 | uint64(b[3])<<32 |
+		uint64(b[4])<<24 | uint64(b[5])<<16 | uint64(b[6])<<8 | uint64(b[7])
+}
+
+// verif_validrec: |buf| is exactly one journal record whose length field and checksum are consistent.
+func verif_validrec(buf []byte) bool {
+	return len(buf) >= journalRecLenSz+journalRecChecksumSz &&
+		int(verif_be32(buf)) == len(buf) &&
+		crc(buf[:len(buf)-journalRecChecksumSz]) == verif_be32(buf[len(buf)-journalRecChecksumSz:])
+}
+
+// ---- ghost protocol state (never read by product code; changed only by ghost_set clauses of contracts)
+
+var verif_ghost struct {
+	// journal durability: where the most recently written root record is
+	jBufRoot     bool      // written into the in-memory journal buffer
+	jFileRoot    bool      // handed to the file with WriteAt
+	jDurableRoot bool      // followed by a successful fsync of the journal file
+	jRoot        hash.Hash // the root that record carries
+}
+
+// ---- stubs carrying the assumed contracts of external functions (see the extern blocks in verif_contracts.go)
+
+func verif_x_File_Sync(f *os.File) (err error) { return f.Sync() }
+
+func verif_x_File_WriteAt(f *os.File, b []byte, off int64) (n int, err error) { return f.WriteAt(b, off) }
+
+func verif_x_Fatalf(behavior dherrors.FatalBehavior, msg string, args ...any) (err error) {
+	return dherrors.Fatalf(behavior, msg, args...)
+}
+
+func verif_x_io_ReadFull(r io.Reader, buf []byte) (n int, err error) { return io.ReadFull(r, buf) }
